@@ -297,6 +297,8 @@ def _compat_tok(model, real):
         return True
     if model == "-" or real == "-":
         return True          # method provided by / hidden from outside the package
+    if model == "M":
+        return "M" in real   # never stored: whenever construction succeeds the attribute is missing
     return model == real
 
 
@@ -383,7 +385,7 @@ def oracle_table(case, real):
         any_param_fail = True
         fails.append(("%s:not-constructible" % cname,
                       "%s(...) raises for every argument tried (%s)" % (cname, o.get("fitdiag"))))
-    missing = [p for p in st["params"] if st["ctor"].get(p) == "M" or dyn_ctor.get(p) == "M"]
+    missing = [p for p in st["params"] if st["ctor"].get(p) == "M" or "M" in dyn_ctor.get(p, "")]
     for p in ([] if unconstructible else st["params"]):
         s_tok = st["ctor"].get(p, "U")
         d_tok = dyn_ctor.get(p, "skip")
@@ -391,11 +393,13 @@ def oracle_table(case, real):
         bad_st = s_tok != "S"
         if bad_dyn or bad_st:
             any_param_fail = True
-            what = {"C": "get_params returns a different object than was passed",
-                    "M": "the argument is not stored under its own name (get_params raises AttributeError)",
-                    "R": "the constructor raises for some values (it inspects / transforms the argument)",
-                    "skip": "not observable here", "S": "stored for the probed values"}[d_tok]
-            fails.append(("%s:ctor:%s" % (cname, p),
+            kinds = {"C": "get_params returns a different object than was passed",
+                     "D": "the default value comes back changed",
+                     "M": "the argument is not stored under its own name (get_params raises AttributeError)",
+                     "R": "the constructor raises for some values (it inspects / transforms the argument)"}
+            what = {"skip": "not observable here", "S": "stored for the probed values"}.get(
+                d_tok, "; ".join(kinds[k] for k in d_tok if k in kinds))
+            fails.append(("%s:ctor:%s:%s-%s" % (cname, p, s_tok, d_tok),
                           "constructor parameter %s.%s: table says %s, observed %s (%s)" % (
                               cname, p, {"S": "stored", "M": "never stored", "U": "not provably stored"}[s_tok], d_tok, what)))
     if st["validates"] and not any_param_fail:
@@ -407,20 +411,20 @@ def oracle_table(case, real):
     # --- fresh / cloned estimator is unfitted
     if dyn:
         if r["fresh"] not in ("F", "skip"):
-            fails.append(("%s:fresh-is_fitted" % cname, "fresh %s reports is_fitted = %s" % (cname, r["fresh"])))
+            fails.append(("%s:fresh-is_fitted:%s" % (cname, r["fresh"]), "fresh %s reports is_fitted = %s" % (cname, r["fresh"])))
     elif not st["fresh"]:
-        fails.append(("%s:fresh-is_fitted" % cname, "constructor of %s does not set _is_fitted = False (table)" % cname))
+        fails.append(("%s:fresh-is_fitted:static" % cname, "constructor of %s does not set _is_fitted = False (table)" % cname))
     # --- get/set/clone protocol on the default instance
     broken_parts = sorted(k for k in _fixture_classes(cname) if k != cname and _ctor_broken(k))
     if dyn and not abstract_proto and not broken_parts:
         if missing:
             pass      # get_params itself fails: already reported as <cls>:ctor:<param>
         elif r["rt"] not in ("ok", "skip"):
-            fails.append(("%s:set_params-roundtrip" % cname, "set_params(**get_params()) on %s: %s" % (cname, r["rt"])))
+            fails.append(("%s:set_params-roundtrip:%s" % (cname, r["rt"]), "set_params(**get_params()) on %s: %s" % (cname, r["rt"])))
         if not missing and r["cl"] not in ("ok", "skip"):
-            fails.append(("%s:clone" % cname, "clone(%s): %s" % (cname, r["cl"])))
+            fails.append(("%s:clone:%s" % (cname, r["cl"]), "clone(%s): %s" % (cname, r["cl"])))
         if not missing and r["unk"] not in ("E:value", "skip"):
-            fails.append(("%s:unknown-param" % cname, "set_params(unknown name) on %s: %s" % (cname, r["unk"])))
+            fails.append(("%s:unknown-param:%s" % (cname, r["unk"]), "set_params(unknown name) on %s: %s" % (cname, r["unk"])))
     # --- fitted-state guards
     gl = _lst(r["guards"]) if dyn else ["skip"] * len(APPLY)
     for m, tok in zip(APPLY, gl):
@@ -429,11 +433,11 @@ def oracle_table(case, real):
             continue
         if tok == "skip":
             if s_tok == "U" and not st["fitabs"] and not dyn:
-                fails.append(("%s.%s:unfitted" % (cname, m),
+                fails.append(("%s.%s:unfitted:static" % (cname, m),
                               "%s.%s (static only; defined in %s): no fitted-state check before first use of fitted state" % (
                                   cname, m, owner_of(key, m))))
             continue
-        fails.append(("%s.%s:unfitted" % (cname, m),
+        fails.append(("%s.%s:unfitted:%s" % (cname, m, tok),
                       "%s.%s (defined in %s) on an unfitted / freshly cloned estimator: %s instead of NotFittedError" % (
                           cname, m, owner_of(key, m), tok)))
     # --- fit
@@ -442,14 +446,14 @@ def oracle_table(case, real):
     for p in st["params"]:
         d_tok = dyn_fit.get(p, "skip")
         if d_tok in ("W", "Wm") or (p in st["fitw"] and not st["fitabs"]):
-            fails.append(("%s:fit-writes:%s" % (cname, p),
+            fails.append(("%s:fit-writes:%s:%s-%s" % (cname, p, "T" if p in st["fitw"] else "-", d_tok),
                           "fit of %s assigns constructor parameter %s (table: %s, observed: %s)" % (
                               cname, p, "assigned" if p in st["fitw"] else "-", d_tok)))
     if dyn:
         if r["ret"] not in ("self", "skip"):
-            fails.append(("%s:fit-returns" % cname, "%s.fit returned %s" % (cname, r["ret"])))
+            fails.append(("%s:fit-returns:%s" % (cname, r["ret"]), "%s.fit returned %s" % (cname, r["ret"])))
         if r["fitted"] not in ("T", "skip"):
-            fails.append(("%s:fit-is_fitted" % cname, "after fit %s.is_fitted = %s" % (cname, r["fitted"])))
+            fails.append(("%s:fit-is_fitted:%s" % (cname, r["fitted"]), "after fit %s.is_fitted = %s" % (cname, r["fitted"])))
     # --- translator cross-check: MRO
     o = _PROBE_CACHE.get(key)
     if dyn and o and o.get("mro"):
